@@ -202,7 +202,7 @@ func isConnLike(t types.Type) bool {
 	return core.IsNamed(t, "net", "Conn") || core.IsNamed(t, "io", "Writer") || core.IsNamed(t, "crypto/tls", "Conn")
 }
 
-func (c *Ctx) c02Ownership() {
+func (c *Ctx) writeThrough(rule string) {
 	R := c.R
 	// (a) every interface call of Write* on a connection-like value in S
 	nWrites := 0
@@ -231,10 +231,10 @@ func (c *Ctx) c02Ownership() {
 					}
 				}
 			}
-			R.Check(ok, "C02.R1", key, c.at(ci), "the only writes to the client connection are Writer.End's frame write and the one-byte SSL replies", why, "a direct write to a connection-like value outside Writer.End that is not an SSL reply: bytes can reach the client unframed")
+			R.Check(ok, rule, key, c.at(ci), "the only writes to the client connection are Writer.End's frame write and the one-byte SSL replies", why, "a direct write to a connection-like value outside Writer.End that is not an SSL reply: bytes can reach the client unframed")
 		}
 	}
-	R.Floor("C02.R1", "connection write sites", nWrites, 3)
+	R.Floor(rule, "connection write sites", nWrites, 3)
 
 	// (b) the embedded io.Writer of buffer.Writer is touched only by NewWriter and End
 	for _, fn := range c.P.ScopeFuncs() {
@@ -256,18 +256,18 @@ func (c *Ctx) c02Ownership() {
 					okFn = true
 				}
 				if !okFn {
-					R.Fail("C02.R1", fkey(fn)+":writer-internals:"+fr.Name, c.at(fa), "the writer's connection and frame buffer are accessed only by pkg/buffer's Writer methods", "field Writer."+fr.Name+" is accessed from "+fname(fn))
+					R.Fail(rule, fkey(fn)+":writer-internals:"+fr.Name, c.at(fa), "the writer's connection and frame buffer are accessed only by pkg/buffer's Writer methods", "field Writer."+fr.Name+" is accessed from "+fname(fn))
 				}
 			}
 		}
 	}
-	R.OK("C02.R1", "writer-internals", "-", "the writer's connection and frame buffer are accessed only by pkg/buffer's Writer methods", "who-may-access scan over every FieldAddr of buffer.Writer.{Writer,frame} in the scope")
+	R.OK(rule, "writer-internals", "-", "the writer's connection and frame buffer are accessed only by pkg/buffer's Writer methods", "who-may-access scan over every FieldAddr of buffer.Writer.{Writer,frame} in the scope")
 
 	// (c) Bytes() is not used to leak or mutate the frame
 	for _, fn := range c.P.ScopeFuncs() {
 		for _, ci := range core.Calls(fn) {
 			if isWriterMethod(ci, "Bytes") {
-				R.Fail("C02.R1", fkey(fn)+":frame-bytes-escape", c.at(ci), "library code does not obtain the raw frame bytes", "Writer.Bytes() is called from "+fname(fn)+": the frame can be mutated or written out of band")
+				R.Fail(rule, fkey(fn)+":frame-bytes-escape", c.at(ci), "library code does not obtain the raw frame bytes", "Writer.Bytes() is called from "+fname(fn)+": the frame can be mutated or written out of band")
 			}
 		}
 	}
@@ -283,11 +283,11 @@ func (c *Ctx) c02Ownership() {
 	}
 	region := c.serveRegion()
 	if len(lib) != 1 || !region[lib[0].Parent()] {
-		R.Fail("C02.R1", "session-writer", "-", "exactly one buffer.NewWriter call exists in package wire, on serve's path before the command loop", sprintf("%d NewWriter call sites in package wire", len(lib)))
+		R.Fail(rule, "session-writer", "-", "exactly one buffer.NewWriter call exists in package wire, on serve's path before the command loop", sprintf("%d NewWriter call sites in package wire", len(lib)))
 	} else {
 		hs := c.P.Method("wire", "Server", "Handshake")
 		ok := hs != nil && c.flowsFromCallResult(lib[0].Common().Args[1], hs, 0, 0)
-		R.Check(ok, "C02.R1", "session-writer:wraps-handshake-conn", c.at(lib[0]), "the session writer writes directly to the connection returned by Handshake (no buffering layer in between)", "argument is result #0 of Server.Handshake (directly or handed down through parameters)", "the writer's sink is not the connection returned by Handshake")
+		R.Check(ok, rule, "session-writer:wraps-handshake-conn", c.at(lib[0]), "the session writer writes directly to the connection returned by Handshake (no buffering layer in between)", "argument is result #0 of Server.Handshake (directly or handed down through parameters)", "the writer's sink is not the connection returned by Handshake")
 	}
 
 	// (e) the connection's writer / reader / conn never cross into another goroutine
@@ -306,14 +306,16 @@ func (c *Ctx) c02Ownership() {
 				t := v.Type()
 				if p, ok := t.(*types.Pointer); ok { // captured variables are passed by reference
 					if core.IsNamed(p.Elem(), pkBuffer, "Writer") || isPtrTo(p.Elem(), pkBuffer, "Writer") {
-						R.Fail("C02.R1", fkey(fn)+":writer-shared-with-goroutine", c.at(g), "the per-connection writer is used by one goroutine only", "a go statement receives the connection's *buffer.Writer: concurrent Start/End interleave frames")
+						R.Fail(rule, fkey(fn)+":writer-shared-with-goroutine", c.at(g), "the per-connection writer is used by one goroutine only", "a go statement receives the connection's *buffer.Writer: concurrent Start/End interleave frames")
 					}
 				}
 			}
 		}
 	}
-	R.OK("C02.R1", "writer-single-goroutine", "-", "the per-connection writer is used by one goroutine only", "no go statement in the scope captures or receives a *buffer.Writer")
+	R.OK(rule, "writer-single-goroutine", "-", "the per-connection writer is used by one goroutine only", "no go statement in the scope captures or receives a *buffer.Writer")
 }
+
+func (c *Ctx) c02Ownership() { c.writeThrough("C02.R1") }
 
 func isPtrTo(t types.Type, pkg, name string) bool {
 	p, ok := t.(*types.Pointer)
